@@ -12,8 +12,10 @@ def load_checks():
     """checks/<ID>.manifest.json (written next to each check) for every check that exists."""
     out = {}
     cd = os.path.join(VERIF, "checks")
+    with open(os.path.join(cd, "REGISTERED")) as fh:
+        registered = set(fh.read().split())
     for f in sorted(os.listdir(cd)):
-        if f.endswith(".manifest.json") and os.path.exists(os.path.join(cd, f.split(".")[0] + ".py")):
+        if f.split(".")[0] in registered and f.endswith(".manifest.json") and os.path.exists(os.path.join(cd, f.split(".")[0] + ".py")):
             with open(os.path.join(cd, f)) as fh:
                 m = json.load(fh)
             out[f.split(".")[0]] = (m["category"], m["technique"], m["text"], m["note"], m.get("design_ref", ""))
